@@ -32,9 +32,11 @@ TIERS = {
         mc_timeout=1800,
     ),
     "thorough": dict(
-        mc=[("Chain", 6, 1500), ("Chain_d4", 6, 1500), ("Chain_d5", 6, 1500)],
+        # Chain: widest alphabets, depth 3, goes on after out-of-range calls; Chain_d4 / Chain_d5: deeper, a sequence
+        # ends with its first out-of-range call
+        mc=[("Chain", 4, 3000), ("Chain_d4", 4, 3000), ("Chain_d5", 4, 3000)],
         random=dict(count=1500, steps=400),
-        mc_timeout=1500,
+        mc_timeout=3000,
     ),
 }
 OPS = ["push", "insert", "pop", "remove", "split_to", "split_off", "truncate", "advance", "clear",
@@ -223,7 +225,8 @@ def nontrivial_count(ev_path, rejected_ids):
                 oob += 1
             if t["out"] == "ok" and (t["a"]["ch"] != t["b"]["ch"]):
                 n += 1
-                if len(samples) < 2 and len(t["b"]["ch"]) >= 2 and e["op"] in ("split_to", "split_off", "insert"):
+                if (len(samples) < 3 and len(t["b"]["ch"]) >= 2 and e["op"] in ("copy_to_bytes", "split_to", "insert", "get_u16")
+                        and e["op"] not in {s["op"] for s in samples}):
                     samples.append(dict(prof=e["prof"], op=e["op"], i=e["i"], x=e["x"], before=t["b"]["ch"],
                                         after=t["a"]["ch"], len_after=t["a"]["len"], returned=t["ret"],
                                         outcome=t["out"], owned_run_identical=(e["T"] == e["S"])))
@@ -489,8 +492,9 @@ def check(prop, tier, seed, replay):
                 "the state of a chain is what its public accessors show (chunk list, len, is_empty, remaining, chunk, has_remaining, "
                 "chunks_vectored): identical logged events are judged once",
                 "of the methods bytes::Buf provides, copy_to_bytes, copy_to_slice, get_u8, get_u16 (big-endian), has_remaining and "
-                "chunks_vectored are exercised; the other fixed-width getters (get_u32, get_i64_le, ...) and take/chain/reader adaptors "
-                "are built from the same remaining/chunk/advance/copy_to_slice calls and are not called separately",
+                "chunks_vectored are exercised; the other fixed-width getters (get_u32, get_i64_le, ...) and the take/chain/reader "
+                "adaptors, which the trait builds from the same remaining/chunk/advance/copy_to_slice calls, are not called (an "
+                "override of one of those would not be exercised)",
                 "bounded: chunk counts, chunk sizes, segments and depth of the listed configurations; random part seeded",
             ])
         if violations:
